@@ -1,6 +1,6 @@
 (* Corr/C19.v — create_db on existing paths (refusal without force, replacement with force) and
    read-style call sequences (statement trace, file bytes, content after reopen). *)
-From GV Require Export Corr.Import Model.Machine Model.Store.
+From GV Require Export Corr.Import Model.GtfSpec Model.Machine Model.Store.
 Open Scope Z_scope.
 
 Inductive stmt := StSelect | StPragma | StWrite (text : str).
@@ -20,7 +20,8 @@ Inductive case :=
           (outcome : result unit)                   (* create_db(new, same path, force) *)
           (after : result tables)                   (* content of the path afterwards *)
           (bytes_same : bool)                       (* file bytes unchanged by the second create_db *)
-| CReads (feats : list row) (calls : list readop) (obs : readobs).
+| CReads (gtf : bool)                      (* the database was built by the GTF importer (it has no index on the bin column) *)
+         (feats : list row) (calls : list readop) (obs : readobs).
 
 Definition IDK : str := [73;68]%N.
 Definition P : str := [112]%N.
@@ -56,14 +57,16 @@ Definition verdict (c : case) : Z :=
         if out_ok && content_ok && bytes_ok then V_OK else V_BAD
       end
     end
-  | CReads feats calls o =>
+  | CReads gtf feats calls o =>
     match feats with [] => V_OUT | _ =>
-    match import_gff call_table SCreateUnique [] (SList [KAttr IDK]) feats empty_st with
+    match (if gtf then import_gtf call_table gtf_default SCreateUnique [] default_gtf_spec feats empty_st
+           else import_gff call_table SCreateUnique [] (SList [KAttr IDK]) feats empty_st) with
     | Err _ => V_OUT
     | Ok d =>
       (* model: reads leave the disk state as it is *)
       let s := reads (opened d) calls in
-      if st_matches false (m_disk s) (ro_before o) && st_matches false (m_disk s) (ro_after o)
+      let same := if gtf then st_matches_set else st_matches false in
+      if same (m_disk s) (ro_before o) && same (m_disk s) (ro_after o)
          && ro_meta_same o && ro_bytes_same o && forallb is_read (ro_trace o)
       then V_OK else V_BAD
     end
